@@ -4,7 +4,7 @@
    extracted-model correspondence of harness/props/c17.py on every run. *)
 From Coq Require Import ZArith List Bool Lia.
 Import ListNotations.
-From Urwid Require Import PyBase PyList TermRef DrawScreen PaintSpec.
+From Urwid Require Import PyBase PyList attrspec_escape_gen TermRef DrawScreen PaintSpec.
 From Urwid Require Import AttrFlow AttrFlowBasics AttrFlowMarkup AttrFlowLayout AttrFlowClip
   AttrFlowTrim AttrFlowCells AttrFlowMaps AttrFlowSgr AttrFlowPalette AttrFlowE2E AttrFlowE2EProofs.
 Open Scope Z_scope.
@@ -342,7 +342,23 @@ Proof. vm_compute. reflexivity. Qed.
    palette model: id 0 is None, id i+1 the name i; a name with a palette entry carries the entry
    for the active colour depth ([spec_for]), any other name is undefined. *)
 
-(* the two hand models of Screen._attrspec_to_escape are the same function *)
+(* this property's hand model of Screen._attrspec_to_escape IS the function that py2v translates from
+   urwid/display/_raw_display_base.py on every run (Gen/attrspec_escape_gen.v; translator module of
+   property C04): the AttrSpec properties it reads are this record's fields, the rgb components those
+   get_rgb_values() computes for a true-colour number *)
+Theorem attrspec_to_escape_is_translated_source :
+  forall bib bbb a,
+    attrspec_escape_gen.attrspec_to_sgr_gen
+      (fg_true a) (fg_high a) (fg_basic a) (fg_num a)
+      (fg_num a / 65536) ((fg_num a / 256) mod 256) (fg_num a mod 256)
+      (a_bold a) (a_italics a) (a_underline a) (a_blink a) (a_standout a) (a_strike a)
+      (bg_true a) (bg_high a) (bg_basic a) (bg_num a)
+      (bg_num a / 65536) ((bg_num a / 256) mod 256) (bg_num a mod 256) bib bbb
+    = AttrFlow.attrspec_to_escape bib bbb a.
+Proof. exact escape_is_translated. Qed.
+Print Assumptions attrspec_to_escape_is_translated_source.
+
+(* hence the two models of Screen._attrspec_to_escape are the same function *)
 Theorem attrspec_to_escape_models_agree :
   forall bib bbb a, DrawScreen.spec_to_sgr bib bbb (conv a) = AttrFlow.attrspec_to_escape bib bbb a.
 Proof. exact enc_agree. Qed.
